@@ -73,6 +73,9 @@ class C01(core.Prop):
                     out.append(pl.make_case(smi, cut, comps, OPT_VARIANTS[oi]))
                 # the same description handed over as a base *graph* built in another order than the reader builds it
                 # (MoleculeResolver.from_graph): node keys identify the coarse nodes, the insertion order means nothing
+                if 'c' in smi or 'n' in smi:
+                    # cuts through aromatic bonds written with the aromatic order symbol ':'
+                    out.append(pl.make_case(smi, cut, comps, dict(OPT_VARIANTS[0], colon=True)))
                 # (pipeline.VARIANTS: constructor x driver x earlier use of the library in the same process)
                 if len(comps) >= 2:
                     nv = len(pl.VARIANTS) - 1
